@@ -22,6 +22,9 @@ pub struct Cfg {
     pub hashes: u16,
     pub seed: u64,
     pub nodes: u8,
+    /// items offered as text (`&str`) instead of `u64`
+    #[serde(default)]
+    pub text: bool,
 }
 
 #[derive(Clone, Serialize, Deserialize)]
@@ -50,14 +53,42 @@ pub struct BloomModel {
     pub hashes: u16,
     pub seed: u64,
     pub members: BTreeSet<u64>,
+    /// items are offered to the filter as `&str` (text derived from the id) instead of as `u64`
+    pub text: bool,
+}
+
+/// Text form of an item id: 0..=96 lower-case letters (lengths around 31, 63, 95 put the
+/// terminator byte that `str` hashing appends on a 32-byte stripe boundary of XXH64).
+pub fn item_text(id: u64) -> String {
+    let len = (id % 97) as usize;
+    let mut x = id.wrapping_mul(0x9E37_79B9_7F4A_7C15) | 1;
+    (0..len)
+        .map(|_| {
+            x ^= x << 13;
+            x ^= x >> 7;
+            x ^= x << 17;
+            (b'a' + (x % 26) as u8) as char
+        })
+        .collect()
 }
 
 impl BloomModel {
     pub fn new(bits: u64, hashes: u16, seed: u64) -> Self {
-        BloomModel { words: vec![0; bits.div_ceil(64) as usize], hashes, seed, members: BTreeSet::new() }
+        BloomModel { words: vec![0; bits.div_ceil(64) as usize], hashes, seed, members: BTreeSet::new(), text: false }
+    }
+    /// the byte sequence the item's `Hash` implementation feeds the hasher
+    fn hashed_bytes(&self, item: u64) -> Vec<u8> {
+        if self.text {
+            // `impl Hash for str`: the bytes, then 0xff
+            let mut b = item_text(item).into_bytes();
+            b.push(0xff);
+            b
+        } else {
+            item.to_le_bytes().to_vec()
+        }
     }
     pub fn positions(&self, item: u64) -> Vec<usize> {
-        let b = item.to_le_bytes();
+        let b = self.hashed_bytes(item);
         let h0 = xxh64(&b, self.seed);
         let h1 = xxh64(&b, h0);
         let cap = (self.words.len() * 64) as u64;
@@ -101,6 +132,22 @@ struct Node {
     model: BloomModel,
 }
 
+impl Node {
+    fn lib_insert(&mut self, item: u64) {
+        if self.model.text { self.f.insert(item_text(item).as_str()) } else { self.f.insert(item) }
+    }
+    fn lib_contains(&self, item: u64) -> bool {
+        contains_item(&self.f, self.model.text, item)
+    }
+    fn lib_contains_and_insert(&mut self, item: u64) -> bool {
+        if self.model.text { self.f.contains_and_insert(&item_text(item).as_str()) } else { self.f.contains_and_insert(&item) }
+    }
+}
+
+fn contains_item(f: &BloomFilter, text: bool, item: u64) -> bool {
+    if text { f.contains(&item_text(item).as_str()) } else { f.contains(&item) }
+}
+
 struct Msg {
     to: u8,
     bytes: Vec<u8>,
@@ -133,12 +180,12 @@ fn check_node(name: &str, nd: &Node, bits: u64, probes: &[u64], deep: bool, st: 
         return Err(Violation::new("C09.bit_array", format!("{name}: bit array differs from the reference positions at word {d:?}: got {:#x?} want {:#x?} ({} vs {} words)", d.map(|i| words[i]), d.map(|i| nd.model.words[i]), words.len(), nd.model.words.len())));
     }
     for &it in &nd.model.members {
-        let c = lib_call("contains", || nd.f.contains(&it))?;
+        let c = lib_call("contains", || nd.lib_contains(it))?;
         st.lib_calls += 1;
         check!(c, "C09.false_negative", "{name}: item {it} was inserted (directly or into a union operand) but contains() is false");
     }
     for &it in probes {
-        let c = nd.f.contains(&it);
+        let c = nd.lib_contains(it);
         let want = pc > 0 && nd.model.has_bits(it);
         check!(c == want, "C09.contains_vs_bits", "{name}: contains({it}) = {c} but the reference positions say {want}");
     }
@@ -148,7 +195,7 @@ fn check_node(name: &str, nd: &Node, bits: u64, probes: &[u64], deep: bool, st: 
         Err(e) => return Err(Violation::new("C09.valid_image_rejected", format!("{name}: own image rejected: {e}"))),
     };
     for &it in nd.model.members.iter().take(50) {
-        check!(back.contains(&it), "C09.false_negative_after_serialization", "{name}: item {it} lost by serialize/deserialize");
+        check!(contains_item(&back, nd.model.text, it), "C09.false_negative_after_serialization", "{name}: item {it} lost by serialize/deserialize");
     }
     check!(back.bits_used() == pc, "C09.bits_used", "{name}: bits_used {} after round trip, array holds {pc}", back.bits_used());
     Ok(())
@@ -232,7 +279,9 @@ impl Scenario for C09 {
                 _ => acts.push(Act::Check { n: rng.below(nodes as u64) as u8 }),
             }
         }
-        (Cfg { bits, hashes, seed, nodes }, acts)
+        // one run in three offers its items as text
+        let text = rng.chance(1, 3);
+        (Cfg { bits, hashes, seed, nodes, text }, acts)
     }
 
     fn execute(&self, cfg: &Cfg, acts: &[Act], st: &mut RunStats) -> Result<(), Violation> {
@@ -240,7 +289,16 @@ impl Scenario for C09 {
         let hashes = cfg.hashes.clamp(1, 64);
         let nn = cfg.nodes.clamp(2, 6) as usize;
         let mk = || BloomFilterBuilder::with_size(bits, hashes).seed(cfg.seed).build();
-        let mut nodes: Vec<Node> = (0..nn).map(|_| Node { f: mk(), model: BloomModel::new(bits, hashes, cfg.seed) }).collect();
+        let mut nodes: Vec<Node> = (0..nn)
+            .map(|_| {
+                let mut model = BloomModel::new(bits, hashes, cfg.seed);
+                model.text = cfg.text;
+                Node { f: mk(), model }
+            })
+            .collect();
+        if cfg.text {
+            st.probe("text_items");
+        }
         let mut net: Vec<Msg> = vec![];
         let probes: Vec<u64> = (0..16u64).map(|i| 0xbeef_0000_0000 + i * 104729).collect();
         st.shape_seq(hashes as u64 * 8 + (bits % 64 == 0) as u64);
@@ -265,7 +323,7 @@ impl Scenario for C09 {
             match act {
                 Act::Insert { n, item } => {
                     let nd = &mut nodes[*n as usize % nn];
-                    lib_call("BloomFilter::insert", || nd.f.insert(*item))?;
+                    lib_call("BloomFilter::insert", || nd.lib_insert(*item))?;
                     nd.model.insert(*item);
                     st.lib_calls += 1;
                     check_node("node", nd, bits, &probes, false, st)?;
@@ -273,7 +331,7 @@ impl Scenario for C09 {
                 Act::ContainsAndInsert { n, item } => {
                     let nd = &mut nodes[*n as usize % nn];
                     let want = nd.model.has_bits(*item);
-                    let got = lib_call("BloomFilter::contains_and_insert", || nd.f.contains_and_insert(item))?;
+                    let got = lib_call("BloomFilter::contains_and_insert", || nd.lib_contains_and_insert(*item))?;
                     check!(got == want, "C09.contains_and_insert", "contains_and_insert({item}) returned {got}; prior membership by reference positions is {want}");
                     nd.model.insert(*item);
                     st.lib_calls += 1;
@@ -360,11 +418,13 @@ impl Scenario for C09 {
                     let nd = &mut nodes[*n as usize % nn];
                     lib_call("BloomFilter::reset", || nd.f.reset())?;
                     nd.model = BloomModel::new(bits, hashes, cfg.seed);
+                    nd.model.text = cfg.text;
                     st.fault("reset");
                     check_node("node(after reset)", nd, bits, &probes, true, st)?;
                 }
                 Act::ForeignDirty { to, items } => {
                     let mut m = BloomModel::new(bits, hashes, cfg.seed);
+                    m.text = cfg.text;
                     for &it in items {
                         m.insert(it);
                     }
